@@ -52,7 +52,7 @@ def main(argv=None):
         for h in out["harness_errors"]:
             print(f"HARNESS-ERROR property={prop} {h}")
         return 2
-    tri = F.Triage(prop, mod.reexec, getattr(mod, "shrinks", None), getattr(mod, "embeds", None))
+    tri = F.Triage(prop, mod.reexec, getattr(mod, "shrinks", None), getattr(mod, "embeds", None), view=getattr(mod, "fingerprint_view", None))
     tri.add_failures(out.get("failures", []))
     nv, nk, lines = tri.report()
     cov = out["coverage"]
